@@ -6,11 +6,17 @@ package props
 // All three run generated histories through the shared udpworld executor.
 
 import (
+	"bytes"
 	"fmt"
-	outline_prometheus "github.com/Jigsaw-Code/outline-ss-server/prometheus"
-	"github.com/prometheus/client_golang/prometheus"
+	"net"
+	"sync"
 	"testing"
+	"time"
 
+	outline_prometheus "github.com/Jigsaw-Code/outline-ss-server/prometheus"
+	"github.com/Jigsaw-Code/outline-ss-server/service"
+	"github.com/prometheus/client_golang/prometheus"
+	"pgregory.net/rapid"
 	"verif/harness/kit"
 )
 
@@ -306,5 +312,104 @@ func TestC16_MetricsExpiry(t *testing.T) {
 	o := uOpts{maxKeys: 4, maxOps: 14, manyClients: true, expiry: true, sizes: []int{0, 1, 64, 1400}}
 	p := kit.Prop[UCase]{ID: "C16", Name: "MetricsExpiry", Quick: 200, Thorough: 30000, Gen: genUCase(o),
 		Run: func(c UCase, info *kit.Info) *kit.Finding { return runUDP(c, info, false, true) }}
+	p.Execute(t)
+}
+
+// ---- one handler, several sockets: first datagrams at the same moment ------------------------------------
+// A service's packet handler serves all of its UDP listeners at once. Datagrams that open new associations on
+// different listeners at the same moment must each reach their target with exactly their own payload.
+
+type C03Shared struct {
+	Ciphers   []string `json:"ciphers"` // one key per listener
+	PerLane   int      `json:"per_lane"`
+	PayloadSz int      `json:"payload_size"`
+	Seed      int64    `json:"seed"`
+}
+
+func genC03Shared(t *rapid.T) C03Shared {
+	return C03Shared{Ciphers: rapid.SliceOfN(rapid.SampledFrom(kit.AllCiphers), 2, 4).Draw(t, "ciphers"), PerLane: rapid.IntRange(100, 600).Draw(t, "perLane"),
+		PayloadSz: rapid.SampledFrom([]int{16, 1000, 12000, 40000}).Draw(t, "size"), Seed: rapid.Int64Range(1, 1<<40).Draw(t, "seed")}
+}
+
+func runC03Shared(c C03Shared, info *kit.Info) *kit.Finding {
+	var keys []kit.KeySpec
+	for i, ci := range c.Ciphers {
+		keys = append(keys, kit.KeySpec{ID: fmt.Sprintf("lane%d", i), Cipher: ci, Secret: fmt.Sprintf("lane-secret-%d", i)})
+	}
+	ph := service.NewPacketHandler(30*time.Second, kit.NewCipherList(keys), &kit.RecService{}, nil)
+	ph.SetTargetIPValidator(kit.PermitAll)
+	tgt, err := kit.NewUDPPeer("127.0.0.1", 0)
+	if err != nil {
+		info.Skipped = err.Error()
+		return nil
+	}
+	defer tgt.Close()
+	var fronts []*kit.UDPFront
+	defer func() {
+		for _, f := range fronts {
+			f.Close(2 * time.Second)
+		}
+	}()
+	for range keys {
+		f, err := kit.ServeUDP("127.0.0.1", ph)
+		if err != nil {
+			info.Skipped = err.Error()
+			return nil
+		}
+		fronts = append(fronts, f)
+	}
+	// payload i of lane l is a pure function of (seed, l, i): the sink can tell whether what it got was ever sent
+	payload := func(l, i int) []byte {
+		b := kit.DetBytes(c.Seed+int64(l)*1_000_003+int64(i), c.PayloadSz)
+		copy(b, fmt.Sprintf("L%02dN%06d", l, i))
+		return b
+	}
+	addr := kit.SocksAddr("127.0.0.1", tgt.Addr.Port, false)
+	var wg sync.WaitGroup
+	start := make(chan struct{})
+	for l := range fronts {
+		wg.Add(1)
+		go func(l int) {
+			defer wg.Done()
+			key := keys[l].Key()
+			to := &net.UDPAddr{IP: net.IPv4(127, 0, 0, 1), Port: fronts[l].Addr.Port}
+			<-start
+			for i := 0; i < c.PerLane; i++ {
+				cl, err := net.ListenUDP("udp", &net.UDPAddr{IP: net.IPv4(127, 0, 0, 1)}) // a new client address: a new association
+				if err != nil {
+					return
+				}
+				cl.WriteToUDP(kit.PackUDP(key, kit.DetBytes(c.Seed+int64(l)*7_000_003+int64(i), key.SaltSize()), append(append([]byte(nil), addr...), payload(l, i)...)), to)
+				cl.Close()
+			}
+		}(l)
+	}
+	close(start)
+	wg.Wait()
+	last := -1
+	kit.WaitFor(2*time.Second, func() bool {
+		q := tgt.Queued()
+		quiet := q == last
+		last = q
+		time.Sleep(20 * time.Millisecond)
+		return quiet
+	})
+	got := tgt.Drain()
+	info.Steps = len(fronts) * c.PerLane
+	info.NonTrivial = len(got) > c.PerLane
+	for _, d := range got {
+		var l, i int
+		if len(d.Data) < 11 {
+			return kit.Violation("udp:payload-corrupt", "the target received a datagram of %d bytes that no client sent (%d listeners share one packet handler)", len(d.Data), len(fronts))
+		}
+		if _, err := fmt.Sscanf(string(d.Data[:11]), "L%02dN%06d", &l, &i); err != nil || l >= len(fronts) || i >= c.PerLane || !bytes.Equal(d.Data, payload(l, i)) {
+			return kit.Violation("udp:payload-corrupt", "the target received a datagram of %d bytes (starting %q) that is not the payload of any datagram a client sent: first datagrams of new associations on %d listeners of one packet handler got mixed up", len(d.Data), d.Data[:11], len(fronts))
+		}
+	}
+	return nil
+}
+
+func TestC03_Shared(t *testing.T) {
+	p := kit.Prop[C03Shared]{ID: "C03", Name: "Shared", Quick: 24, Thorough: 2000, Gen: genC03Shared, Run: runC03Shared}
 	p.Execute(t)
 }
